@@ -211,6 +211,26 @@ func runC01(r *Run) error {
 				return err
 			}
 		}
+		// a WRITER (local head + replicated remote heads in its cache) is restarted and loaded
+		// from its directory: the route must deliver exactly the entries it held
+		{
+			w0 := r.Rng.Intn(nw)
+			beforeSet := u.Note(s.Stores[w0].OpLog().Values().Slice())
+			if err := c13Reopen(s, w0); err != nil {
+				return err
+			}
+			if err := s.Stores[w0].Load(ctx01, -1); err != nil {
+				return fmt.Errorf("load writer: %w", err)
+			}
+			if !s.Settle() {
+				r.AddDirect("hang:load", "store did not settle after Load", map[string]interface{}{"hist": hi, "state": sim.LastSettleState})
+			}
+			afterSet := u.Note(s.Stores[w0].OpLog().Values().Slice())
+			r.AddCase(fmt.Sprintf("(CReload %s %s)", sim.CoqListN(beforeSet), sim.CoqListN(afterSet)),
+				map[string]interface{}{"kind": "reload", "sig": "reload-loses-entries", "hist": hi, "writer": w0, "before": len(beforeSet), "after": len(afterSet)}, len(beforeSet) >= 2)
+			observeLog(r, s, u, w0, hi)
+			r.Count("route:writer-reload")
+		}
 		// observer C: the load routes.  It takes a snapshot while it holds only a prefix of the
 		// history, receives everything, and then rebuilds its log through Load from its cache
 		// directory and/or LoadFromSnapshot of the older snapshot -- into an empty or a non-empty
